@@ -175,8 +175,10 @@ class Publish:
 
         self.data = data
 
-        # XXX: Use the MutableFileVersion instead.
-        self.datalength = self._node.get_size()
+        # The length of the version we are updating (verinfo[4]). The
+        # node's cached size may be stale: it is not refreshed by an
+        # earlier in-place update that made the file longer.
+        self.datalength = version[4]
         if data.get_size() > self.datalength:
             self.datalength = data.get_size()
 
